@@ -71,6 +71,17 @@ pub static C19_VIRTUAL: Scenario = Scenario {
     stubbed: &["wrapped service and callers (harness)", "scheduler (seeded order of runnable tasks)", "clock: governor reads std::time::Instant through its own MonotonicClock (vendored manifest: quanta feature off), which the simulator's clock seam answers with simulated time", "futures-timer (governor's wait) replaced by a Delay on the simulated tokio clock"],
 };
 
+pub static C19_NET: Scenario = Scenario {
+    id: "C19",
+    name: "c19-ratelimit-network",
+    run: run_c19_net,
+    quick_runs: 1500,
+    thorough_runs: 60_000,
+    rule: "one run = a server Network whose service is wrapped in the real RateLimitLayer (burst 1-4, one cell per 20-500 ms) and 2-3 client Networks issuing RPCs at PRNG instants over a clean or lossy fabric, some of them over a second connection that replaces the first (the quota belongs to the peer, not to the connection) and with a forged peer-id header; oracle = the server-side admission instants of every client against the bucket replay (burst cells; burst+1 = known finding F-D), every admitted request attributed to the client that sent it, refusals never reach the service and carry a hint, Block mode refuses nothing and serves everything in the end; distinct = distinct order signature; non-trivial = at least one request over quota",
+    real: super::REAL_NET,
+    stubbed: super::STUB_NET,
+};
+
 pub static C20_DIRECT: Scenario = Scenario {
     id: "C20",
     name: "c20-auth-direct",
@@ -577,6 +588,167 @@ fn run_c19(input: RunInput) -> ScenFuture {
         w.event(format!("{key} peers={n_peers} per_peer={per_peer:?}"));
         w.sample("run", json!({"burst": burst, "block": block, "per_peer_requests": per_peer}));
         w.finish()
+    })
+}
+
+fn run_c19_net(input: RunInput) -> ScenFuture {
+    Box::pin(async move {
+        use anemo_tower::rate_limit::{RateLimitLayer, WaitMode as RWait, WAIT_NANOS_HEADER};
+        let w = World::new(&input, LinkCfg::clean(200, 4_000));
+        let lossy = w.flag("lossy", 0.3);
+        let burst = w.param("burst", 1, 4) as u64;
+        let block = w.flag("block_mode", 0.5);
+        let n_clients = w.param("clients", 2, 3) as usize;
+        let n_req = w.param("requests", 1, 60) as u64;
+        let period_ms = [20u64, 50, 100, 250, 500][w.param("period_class", 0, 4) as usize];
+        let t_ns = period_ms * 1_000_000;
+        let quota = governor::Quota::with_period(Duration::from_millis(period_ms)).unwrap().allow_burst(std::num::NonZeroU32::new(burst as u32).unwrap());
+        let inner = GaugeSvc { st: Default::default(), fabric: w.fabric.clone() };
+        let layer = RateLimitLayer::new(quota, if block { RWait::Block } else { RWait::ReturnError });
+        let cfg = base_config(10_000, Some(2_000));
+        let server = w.start_node(w.spec(1, cfg.clone()), StatusToResponse(layer.layer(inner.clone()))).unwrap();
+        let mut clients = Vec::new();
+        for i in 0..n_clients {
+            let c = Arc::new(w.start_node(w.spec(i as u8 + 2, cfg.clone()), Svc::echo(&w)).unwrap());
+            if c.net.connect_with_peer_id(server.addr, server.peer_id).await.is_err() {
+                w.harness_error("setup connect failed");
+            }
+            clients.push(c);
+        }
+        let mut link = LinkCfg::clean(200, 4_000);
+        if lossy {
+            link.drop = w.param("drop_pct", 1, 8) as f64 / 100.0;
+        }
+        w.fabric.set_default_link(link);
+        let mut r = w.rng("wl:c19net");
+        let span_ms = w.param("span_periods", 1, 12) as u64 * period_ms;
+        let mut tasks = Vec::new();
+        // (request id, client) of everything sent; refusals seen by the callers
+        let mut sent: BTreeMap<u64, usize> = BTreeMap::new();
+        let refused: Arc<Mutex<Vec<(u64, Option<String>, u64, u64)>>> = Default::default();
+        let unanswered: Arc<Mutex<Vec<u64>>> = Default::default();
+        // in the middle of the run one client dials the server again: the replacement connection
+        // must draw on the same quota
+        let redial_at = r.gen_bool(0.4).then(|| r.gen_range(0..=span_ms));
+        if let Some(at) = redial_at {
+            let (c, sa, sid) = (clients[0].clone(), server.addr, server.peer_id);
+            tasks.push(tokio::spawn(async move {
+                sleep_ms(at).await;
+                let _ = c.net.connect_with_peer_id(sa, sid).await;
+            }));
+            w.probe("client-redials-mid-run");
+        }
+        for id in 0..n_req {
+            let ci = r.gen_range(0..n_clients);
+            sent.insert(id, ci);
+            let c = clients[ci].clone();
+            let at = r.gen_range(0..=span_ms);
+            // a peer id carried in the message must not matter: some requests name another client
+            let forged = r.gen_bool(0.2).then(|| clients[(ci + 1) % n_clients].peer_id);
+            let (sid, w2, refused, unanswered) = (server.peer_id, w.clone(), refused.clone(), unanswered.clone());
+            tasks.push(tokio::spawn(async move {
+                sleep_ms(at).await;
+                let t_send = w2.now_ns();
+                let mut req = Request::new(Bytes::new()).with_header("id", id.to_string()).with_header("dur-ms", "1");
+                if let Some(f) = forged {
+                    req = req.with_header("peer-id", format!("{f:?}")).with_extension(f);
+                }
+                match rpc_bounded(&c, sid, req, Duration::from_secs(120)).await {
+                    Ok(resp) if resp.status() == StatusCode::Success => {
+                        if resp.body() != &Bytes::from(id.to_string()) {
+                            w2.violate("wrong-response", "net", format!("request {id} got another request's response"));
+                        }
+                    }
+                    Ok(resp) if resp.status() == StatusCode::TooManyRequests => refused.lock().unwrap().push((id, resp.headers().get(WAIT_NANOS_HEADER).cloned(), t_send, w2.now_ns())),
+                    Ok(resp) => w2.violate("unexpected-status", "net", format!("request {id}: {:?}", resp.status())),
+                    Err(e) => {
+                        unanswered.lock().unwrap().push(id);
+                        if e == "hang" {
+                            w2.violate("request-never-completes", "net", format!("request {id}: {e}"));
+                        }
+                    }
+                }
+            }));
+        }
+        futures::future::join_all(tasks).await;
+        let key = format!("burst={burst} period_ms={period_ms} mode={}", if block { "block" } else { "return-error" });
+        let log = inner.st.lock().unwrap().log.clone();
+        let refused = refused.lock().unwrap().clone();
+        let unanswered = unanswered.lock().unwrap().clone();
+        let mut extra_cell: Option<String> = None;
+        let mut over = false;
+        for (ci, c) in clients.iter().enumerate() {
+            // every admitted request is attributed to the client that sent it
+            for e in log.iter().filter(|e| sent.get(&e.0) == Some(&ci)) {
+                if e.3 != Some(c.peer_id) {
+                    w.violate("request-attributed-to-wrong-peer", key.clone(), format!("request {} of client {ci} reached the service as {:?}", e.0, e.3.map(|p| w.pname(&p))));
+                }
+            }
+            let mut adm: Vec<u64> = log.iter().filter(|e| e.3 == Some(c.peer_id)).map(|e| e.1).collect();
+            adm.sort();
+            let mut strict = BucketReplay::new(t_ns, burst, burst);
+            let mut extra = BucketReplay::new(t_ns, burst + 1, burst);
+            for (k, t) in adm.iter().enumerate() {
+                if !extra.admit(*t) {
+                    w.violate("quota-exceeded-in-a-window", key.clone(), format!("client {ci}: admission {k} at {} us came when less than one cell was available even in a bucket of burst+1 = {} cells (admissions, us: {:?}); re-dial at {redial_at:?} ms", t / 1000, burst + 1, adm[..=k].iter().rev().take(10).rev().map(|x| x / 1000).collect::<Vec<_>>()));
+                    break;
+                }
+                if !strict.admit(*t) {
+                    extra_cell.get_or_insert(format!("client {ci}: admission {k} at {} us exceeds burst {burst} + replenishment (1 cell / {period_ms} ms) by one cell", t / 1000));
+                }
+            }
+            let n_sent = sent.values().filter(|x| **x == ci).count() as u64;
+            if n_sent > burst {
+                over = true;
+            }
+        }
+        for (id, hint, t_send, t_recv) in &refused {
+            // a refusal is justified only if, at some instant between sending the request and
+            // receiving the refusal, the sender's own bucket held less than one cell
+            let ci = sent[id];
+            let mut adm: Vec<u64> = log.iter().filter(|e| e.3 == Some(clients[ci].peer_id)).map(|e| e.1).collect();
+            adm.sort();
+            let mut b = BucketReplay::new(t_ns, burst, burst);
+            let mut min_level = i128::MAX;
+            let mut k = 0;
+            while k < adm.len() && adm[k] < *t_send {
+                b.admit(adm[k]);
+                k += 1;
+            }
+            min_level = min_level.min(b.level_at(*t_send));
+            while k < adm.len() && adm[k] <= *t_recv {
+                b.admit(adm[k]);
+                min_level = min_level.min(b.level_at(adm[k]));
+                k += 1;
+            }
+            w.check(min_level < t_ns as i128, "request-within-quota-refused", key.clone(), || format!("request {id} of client {ci} (sent at {} us, refused by {} us) was refused although the client's own bucket never held less than {:.2} cells in between", t_send / 1000, t_recv / 1000, min_level as f64 / t_ns as f64));
+            w.check(!block, "block-mode-refused", key.clone(), || format!("request {id} answered TooManyRequests in Block mode"));
+            w.check(!log.iter().any(|e| e.0 == *id), "refused-request-reached-service", key.clone(), || format!("request {id} refused but reached the service"));
+            w.check(hint.as_ref().and_then(|h| h.parse::<u64>().ok()).map(|n| n > 0 && n <= 2 * t_ns).unwrap_or(false), "refusal-without-valid-wait-hint", key.clone(), || format!("request {id}: wait-nanos {hint:?}"));
+        }
+        // (requests in flight over a connection that gets replaced fail with it)
+        if !lossy && redial_at.is_none() {
+            w.check(unanswered.is_empty(), "request-never-completes", key.clone(), || format!("requests {unanswered:?} failed on a loss-free network"));
+            if block {
+                let served = log.len() as u64;
+                w.check(served == n_req, "waiting-request-never-admitted", key.clone(), || format!("{served} of {n_req} requests reached the service in Block mode"));
+            }
+        }
+        if over {
+            w.mark_overlap();
+            w.probe("request-over-quota");
+        }
+        if let Some(msg) = extra_cell {
+            w.probe("extra-cell-of-a-full-bucket-used");
+            if !w.violated() {
+                w.violate("quota-exceeded-by-the-extra-cell-of-a-full-bucket", "bucket-holds-burst+1-cells-once-it-has-been-full", msg);
+            }
+        }
+        w.event(format!("{key} clients={n_clients} refused={} served={}", refused.len(), log.len()));
+        w.sample("run", json!({"burst": burst, "period_ms": period_ms, "block": block, "clients": n_clients, "requests": n_req, "refused": refused.len(), "served": log.len(), "redial_at_ms": redial_at}));
+        let out = w.finish();
+        drop((server, clients));
+        out
     })
 }
 
